@@ -278,8 +278,20 @@ Qed.
 
 
 
-Lemma mv_parse_attribute text s s' : parse_attribute text s = Ok s' -> wfl text s -> mvk text 0 s s'.
+Lemma mv_parse_attribute text s p l s' : parse_attribute text s = Ok (p, l, s') -> wfl text s -> mvk text 0 s s'.
 Proof. unfold parse_attribute. intros H W. run_with pfw2. Qed.
+
+Lemma mv_parse_pseudo_attribute text name s s' : parse_pseudo_attribute text name s = Ok s' -> wfl text s ->
+  mvk text 0 s s'.
+Proof.
+  unfold parse_pseudo_attribute. intros H W. bsteps. eapply mv_parse_attribute; eassumption.
+Qed.
+
+Lemma mv_parse_external_literal text s s' : parse_external_literal text s = Ok s' -> wfl text s -> mvk text 0 s s'.
+Proof. unfold parse_external_literal. intros H W. run_with pfw2. Qed.
+
+Lemma mv_parse_pubid_literal text s s' : parse_pubid_literal text s = Ok s' -> wfl text s -> mvk text 0 s s'.
+Proof. unfold parse_pubid_literal. intros H W. run_with pfw2. Qed.
 
 Lemma mv_decl_consume_spaces text s s' : decl_consume_spaces text s = Ok s' -> wfl text s -> mvk text 0 s s'.
 Proof. unfold decl_consume_spaces. intros H W. run_with pfw2; apply mvk_refl; assumption. Qed.
@@ -288,6 +300,9 @@ Ltac pfw3 :=
   idtac; first [ pfw2 |
   match goal with
   | W : wfl _ ?s, H : parse_attribute _ ?s = Ok _ |- _ => fwdm H mv_parse_attribute
+  | W : wfl _ ?s, H : parse_pseudo_attribute _ _ ?s = Ok _ |- _ => fwdm H mv_parse_pseudo_attribute
+  | W : wfl _ ?s, H : parse_external_literal _ ?s = Ok _ |- _ => fwdm H mv_parse_external_literal
+  | W : wfl _ ?s, H : parse_pubid_literal _ ?s = Ok _ |- _ => fwdm H mv_parse_pubid_literal
   | W : wfl _ ?s, H : decl_consume_spaces _ ?s = Ok _ |- _ => fwdm H mv_decl_consume_spaces
   end ].
 
@@ -325,6 +340,9 @@ Ltac pfw :=
   idtac; first [ pfw2 |
   match goal with
   | W : wfl _ ?s, H : parse_attribute _ ?s = Ok _ |- _ => fwdm H mv_parse_attribute
+  | W : wfl _ ?s, H : parse_pseudo_attribute _ _ ?s = Ok _ |- _ => fwdm H mv_parse_pseudo_attribute
+  | W : wfl _ ?s, H : parse_external_literal _ ?s = Ok _ |- _ => fwdm H mv_parse_external_literal
+  | W : wfl _ ?s, H : parse_pubid_literal _ ?s = Ok _ |- _ => fwdm H mv_parse_pubid_literal
   | W : wfl _ ?s, H : decl_consume_spaces _ ?s = Ok _ |- _ => fwdm H mv_decl_consume_spaces
   | W : wfl _ ?s, H : parse_declaration _ ?s = Ok _ |- _ => fwdm H mv_parse_declaration
   | W : wfl _ ?s, H : parse_external_id _ ?s = Ok _ |- _ => fwdm H mv_parse_external_id
